@@ -39,8 +39,12 @@ type Entry struct {
 	Raw    string `json:"raw,omitempty"`
 	Target string `json:"t,omitempty"` // literal link target
 	Perm   int    `json:"m,omitempty"`
-	Data   string `json:"c,omitempty"` // content; if empty and Size > 0 a filler of Size bytes is generated
+	Dup    bool   `json:"dup,omitempty"` // generator note: a further entry for a path already in the layer
+	Data   string `json:"c,omitempty"`   // content; if empty and Size > 0 a filler of Size bytes is generated
 	Size   int    `json:"n,omitempty"`
+	// overDup (set by effectiveSpec, not part of the scenario): the layer had a further entry for
+	// this path which the loader skipped because of the size limit.
+	overDup bool
 }
 
 // Content returns the bytes of a regular file entry.
